@@ -1261,7 +1261,6 @@ func TestC15PingPong(t *testing.T) {
 	}
 }
 
-
 // ---- C15 unit "close-windows": exhaustive schedules of Close against blocked calls -----------
 //
 // Small configurations in which one or two calls must block (a write into a
@@ -1310,14 +1309,72 @@ func closeWindowConfigs() []RCase {
 	return out
 }
 
+// ---- C15 unit "wake-windows": exhaustive schedules of a wake-up against a blocked call ---------
+//
+// The same enumeration without any Close: one call must block (a write into a ring
+// without room, a wait for more data than there is) and its peer makes one step that frees
+// or delivers ENOUGH - through Read, through ReadWait/ReadPeek + ReadCommit, through Write,
+// through WriteWait + WriteCommit. In every schedule over the yield points the blocked call
+// must return (a wake-up that falls between a waiter's check and its wait is not lost).
+
+func wakeWindowConfigs() []RCase {
+	const size = 16384
+	var out []RCase
+	add := func(c RCase) {
+		c.Mode, c.Size, c.Choices = "ctl", size, []int{}
+		out = append(out, c)
+	}
+	// producer blocked for space; the consumer frees enough in one step
+	for _, pre := range [][2]int{{size, 0}, {12000, 0}, {size, 3000}} {
+		avail := pre[0] - pre[1]
+		free := size - avail
+		need := free + 2000
+		for _, k := range []string{"write", "reserve"} {
+			for _, tail := range [][]ROp{
+				{{K: "wait", N: avail, M: avail}},                   // ReadWait + ReadCommit of everything: the ring is empty afterwards
+				{{K: "wait", N: 2000, M: 2000}},                     // exactly enough
+				{{K: "peek", N: 5000, M: 5000}},                     // ReadPeek + ReadCommit
+				{{K: "read", N: 6000}},                              // Read
+				{{K: "read", N: 1500}, {K: "wait", N: 600, M: 600}}, // two steps, only the second makes room
+			} {
+				add(RCase{Pre: [][2]int{pre}, Prod: []ROp{{K: k, N: need, M: need}}, Tail: tail})
+			}
+		}
+	}
+	// consumer blocked for data; the producer delivers enough in one step
+	for _, pre := range [][2]int{{0, 0}, {64, 25}, {9000, 9000}} {
+		avail := pre[0] - pre[1]
+		for _, prod := range [][]ROp{
+			{{K: "write", N: 100, M: 100}},
+			{{K: "write", N: 5000, M: 5000}},
+			{{K: "reserve", N: 100, M: 100}},
+			{{K: "write", N: 40, M: 40}, {K: "reserve", N: 60, M: 60}}, // only the second completes what is waited for
+		} {
+			add(RCase{Pre: [][2]int{pre}, Prod: prod, Tail: []ROp{{K: "wait", N: avail + 100, M: avail + 100}}})
+			if avail == 0 {
+				add(RCase{Pre: [][2]int{pre}, Prod: prod, Tail: []ROp{{K: "read", N: 10}}})
+			}
+		}
+	}
+	return out
+}
+
+func TestC15WakeWindows(t *testing.T) {
+	c15Windows(t, "wake-windows", wakeWindowConfigs())
+}
+
 func TestC15CloseWindows(t *testing.T) {
-	rec := ev.New("C15", "close-windows")
+	c15Windows(t, "close-windows", closeWindowConfigs())
+}
+
+func c15Windows(t *testing.T, unit string, configs []RCase) {
+	rec := ev.New("C15", unit)
 	defer rec.Flush()
 	judge := func(c RCase) (string, outcome) {
 		o := execute(c)
 		return o.Liveness, o
 	}
-	if rp := ev.LoadReplay(t, "close-windows"); rp != nil {
+	if rp := ev.LoadReplay(t, unit); rp != nil {
 		var c RCase
 		json.Unmarshal(rp.Case, &c)
 		if f, o := judge(c); f != "" {
@@ -1332,7 +1389,7 @@ func TestC15CloseWindows(t *testing.T) {
 	e := ev.GetEnv()
 	capPerConfig := ev.Pick(2500, 60000)
 	exhaustive := true
-	for ci, cfg := range closeWindowConfigs() {
+	for ci, cfg := range configs {
 		if ci%e.Shards != e.Shard {
 			continue
 		}
